@@ -106,12 +106,22 @@ pub(crate) fn unbond(
             BOND.save(deps.storage, (&info.sender, &denom), &unbond)?;
         }
 
-        // record the unbonding
+        // record the unbonding. If there is already an unbonding record for the same timestamp,
+        // i.e. the address unbonded the same denom earlier in the same block, merge the amounts
+        // instead of overwriting the previous record
+        let mut unbonding_asset = asset.clone();
+        if let Some(existing_unbond) =
+            UNBOND.may_load(deps.storage, (&info.sender, &denom, timestamp.nanos()))?
+        {
+            unbonding_asset.amount = unbonding_asset
+                .amount
+                .checked_add(existing_unbond.asset.amount)?;
+        }
         UNBOND.save(
             deps.storage,
             (&info.sender, &denom, timestamp.nanos()),
             &Bond {
-                asset: asset.clone(),
+                asset: unbonding_asset,
                 weight: Uint128::zero(),
                 timestamp,
             },
